@@ -185,6 +185,10 @@ class SgzReader(object):
                               pad(self.n_xlines, self.blockshape[1]),
                               pad(self.n_samples, self.blockshape[2]))
 
+        # Data length for original files, which did not record it
+        if self.compressed_data_diskblocks == 0:
+            self.compressed_data_diskblocks = int(np.prod(self.shape_pad) * self.rate) // (8 * DISK_BLOCK_BYTES)
+
         # These are useful units of measurement for SGZ files:
 
         # A 'compression unit' is the smallest decompressable piece of the SGZ file.
